@@ -295,7 +295,7 @@ class C16(Check):
 
         def soups(full_n, struct_n, hosts):
             for h in hosts:
-                for seq in soup(SOUP_FULL, full_n):
+                for seq in soup(SOUP_FULL, full_n if h in ("module", "open") else min(full_n, 2)):
                     yield ("s", "F", seq, h)
                 for seq in soup(SOUP_STRUCT, struct_n if (tier == "thorough" or h in ("module", "open")) else 0):
                     if len(seq) > full_n:
